@@ -343,6 +343,20 @@ func suiteNumeric(rn *runner, r *rng, tier string) {
 			if tc.impl[6] != wantUint && !(wantUint == "err-or-0" && (tc.impl[6] == "err" || tc.impl[6] == "0")) {
 				rn.disagree(disagreement{Kind: "spec", Ops: tc.ops, At: 6, Impl: tc.impl[6], Other: wantUint, Note: "Uint() of " + lit})
 			}
+			// Float(): the float64 nearest to the exact value (ties to even); for integer entries the exact value is the literal
+			if kind == "int" || kind == "uint" {
+				f, _ := val.Float64()
+				wf := h64(math.Float64bits(f))
+				if tc.impl[7] != wf {
+					rn.disagree(disagreement{Kind: "spec", Ops: tc.ops, At: 7, Impl: tc.impl[7], Other: wf, Note: "Float() of " + lit})
+				}
+				if !strings.HasPrefix(tc.impl[8], wf) {
+					rn.disagree(disagreement{Kind: "spec", Ops: tc.ops, At: 8, Impl: tc.impl[8], Other: wf + " <flags>", Note: "FloatFlags() of " + lit})
+				}
+				if tc.impl[15] != "ok "+wf {
+					rn.disagree(disagreement{Kind: "spec", Ops: tc.ops, At: 15, Impl: tc.impl[15], Other: "ok " + wf, Note: "AsFloat of " + lit})
+				}
+			}
 			// bulk accessors agree with the per-element ones
 			wi := "err"
 			if wantInt != "err" {
